@@ -208,6 +208,7 @@ type c31Op struct {
 	Kind int // 0 Add 1 AddHinter 2 Find 3 FindByString 4 FindBytType 5 FindBytTypeString
 	Type int
 	V    c31Ver
+	Back int // > 0: reuse type and version of the op that many steps back (lookups of what was just added, re-adds)
 }
 
 var (
@@ -227,6 +228,7 @@ func c31GenOp() *rapid.Generator[c31Op] {
 				pre:   rapid.SampledFrom([]string{"", "", "", "rc1", "v3", "rc.1", "rc.2", "rc.10"}).Draw(t, "pre"),
 				meta:  rapid.SampledFrom([]string{"", "", "v1"}).Draw(t, "meta"),
 			},
+			Back: rapid.SampledFrom([]int{0, 0, 0, 1, 1, 2, 3}).Draw(t, "back"),
 		}
 	})
 }
@@ -291,13 +293,13 @@ func c31In(ids []int, id int) bool {
 func TestC31(t *testing.T) {
 	r := ev.Start(t, "C31")
 	defer r.Finish()
-	r.Rule("A: every string over {a,b,-,v,1,_,+} of length 2..5 (quick) / 2..6 (thorough) accepted by Type.IsValid x 7 versions (plain, prerelease '-v3', metadata '+v1', ...): " +
+	r.Rule("A: every string over {a,b,-,v,1,_,+} of length 2..5 (quick) / 2..6 (thorough) accepted by Type.IsValid x 8 versions (plain, prerelease '-v3', metadata '+v1', ...): " +
 		"NewHint -> String -> ParseHint (twice: uncached/cached) and UnmarshalText must give back type and version; " +
 		"B: generated types up to 100 chars with '-v<d>' fragments x generated versions; " +
 		"C: histories of 4..40 Add/AddHinter/Find/FindByString/FindBytType/FindBytTypeString over 3 types x 2 majors x 6 minor.patch x 6 prereleases x 2 metadata on a cache-less and a cached CompatibleSet " +
 		"compared at every step with a list-of-registrations model (own semver precedence). " +
-		"non-trivial: printed hint with more than one '-v<digit>' or a '+v' (A,B); history with a lookup whose correct answer differs from the previous lookup of the same string (C)")
-	r.Floor(int64(r.N(300, 3000)))
+		"non-trivial: printed hint with more than one '-v<digit>' or a '+v' (A,B); history with a lookup whose correct answer differs from the previous lookup of the same (type, major) / type (C)")
+	r.Floor(int64(r.N(1000, 10000)))
 	r.Assume("valid type = Type.IsValid, valid version = util.ParseVersion succeeds and Hint.IsValid accepts the pair (version text <= 20 chars)",
 		"types used in set histories contain no '-v<digit>' so that the parse ambiguity (part A) and the set behaviour (part C) have separate signatures",
 		"lookup by type (FindBytType*) is judged as 'highest registered version of that type' (DESIGN), lookup by hint as the statement says",
@@ -309,7 +311,7 @@ func TestC31(t *testing.T) {
 
 		maxLen := r.N(5, 6)
 		versions := []c31Ver{
-			{0, 0, 1, "", ""}, {1, 2, 3, "", ""}, {2, 0, 0, "v3", ""}, {10, 1, 0, "", "v1"}, {1, 0, 0, "rc.1", "b-v2"}, {3, 0, 0, "0-v1", ""}, {1, 1, 1, "a", "v2.0.0"},
+			{0, 0, 1, "", ""}, {1, 2, 3, "", ""}, {2, 0, 0, "v3", ""}, {10, 1, 0, "", "v1"}, {1, 0, 0, "rc.1", "b-v2"}, {3, 0, 0, "0-v1", ""}, {1, 1, 1, "a", "v2.0.0"}, {1, 0, 0, "v2.0.0", ""},
 		}
 
 		var all, valid, marked, idx int64
@@ -367,7 +369,7 @@ func TestC31(t *testing.T) {
 	// ---- B. long / random types
 	bSamples := 0
 
-	r.Checks(3000, 300000)
+	r.Checks(20000, 2000000)
 	r.ShrinkTime(10 * time.Second)
 	rapid.Check(t, func(rt *rapid.T) {
 		const alnum = "abcdefghijklmnopqrstuvwxyz0123456789"
@@ -424,7 +426,7 @@ func TestC31(t *testing.T) {
 	}
 
 	// ---- C. compatible set histories
-	r.Checks(500, 50000)
+	r.Checks(5000, 1000000)
 	r.ShrinkTime(20 * time.Second)
 	rapid.Check(t, func(rt *rapid.T) {
 		size := rapid.SampledFrom([]int{1, 3, 8, 1024}).Draw(rt, "cacheSize")
@@ -440,11 +442,16 @@ func TestC31(t *testing.T) {
 		everBest := map[int]bool{} // ids that were the correct answer of some lookup at some time
 		var hist []string
 
-		last := map[string]string{} // lookup string -> model answer at the previous lookup
+		last := map[string]string{} // (type, major) or type -> model answer at the previous lookup of that bucket
 		nontrivial := false
 		lookups := 0
 
 		for step, op := range ops {
+			if op.Back > 0 && step-op.Back >= 0 {
+				op.Type, op.V = ops[step-op.Back].Type, ops[step-op.Back].V
+				ops[step] = op
+			}
+
 			typ := c31SetTypes[op.Type]
 
 			uv, err := util.ParseVersion(op.V.String())
@@ -457,7 +464,12 @@ func TestC31(t *testing.T) {
 				rt.Fatalf("harness: hint %q invalid", ht)
 			}
 
-			hist = append(hist, fmt.Sprintf("%s(%s)", c31OpNames[op.Kind], ht.String()))
+			if op.Kind >= 4 {
+				hist = append(hist, fmt.Sprintf("%s(%s)", c31OpNames[op.Kind], typ))
+			} else {
+				hist = append(hist, fmt.Sprintf("%s(%s)", c31OpNames[op.Kind], ht.String()))
+			}
+
 			trail := func() string { return strings.Join(hist, " ") }
 
 			switch op.Kind {
@@ -494,12 +506,17 @@ func TestC31(t *testing.T) {
 					q = typ
 				}
 
+				bucket := fmt.Sprintf("%s|%d", typ, op.V.major)
+				if byType {
+					bucket = typ
+				}
+
 				ans := fmt.Sprint(want)
-				if prev, found := last[q]; found && prev != ans {
+				if prev, found := last[bucket]; found && prev != ans {
 					nontrivial = true
 				}
 
-				last[q] = ans
+				last[bucket] = ans
 				lookups++
 
 				for i, st := range sets {
@@ -530,13 +547,13 @@ func TestC31(t *testing.T) {
 					switch {
 					case c31PreOnly(reg, want, got.id, found):
 						sig = "prerelease-precedence-wrong" // returned and correct registration differ only in the prerelease
-					case byType:
-						sig = "type-lookup-wrong-entry"
 					case i == 1 && found && !everBest[got.id]:
 						// the cache-less set was checked first and was right; the cached one returns a registration that never was the highest
 						sig = "add-caches-losing-registration"
 					case i == 1:
 						sig = "cache-stale-after-add" // an answer that was right before a later Add
+					case byType:
+						sig = "type-lookup-wrong-entry"
 					}
 
 					r.Violation(rt, sig, "history %s: %s %s(%s) returns found=%v id=%d (%s) err=%v; registered with that type%s: highest is id %v of %v",
